@@ -419,8 +419,11 @@ def run_check(prop, tier, seed, repo='/repo'):
         'violations': len(out.violations),
     }
     ev['coverage'].update(ev_extra)
-    os.makedirs(os.path.join(VERIF, 'evidence'), exist_ok=True)
-    json.dump(ev, open(os.path.join(VERIF, 'evidence', prop.id + '.json'), 'w'), indent=1)
+    # evidence of the registered tree goes to evidence/; runs against an alternate copy (--repo) keep theirs apart
+    evdir = os.path.join(VERIF, 'evidence') if os.path.abspath(repo) == '/repo' else \
+        os.path.join(BUILD, 'evidence-' + repolib.tag_for(repo))
+    os.makedirs(evdir, exist_ok=True)
+    json.dump(ev, open(os.path.join(evdir, prop.id + '.json'), 'w'), indent=1)
     say('%s %s tier=%s seed=%s proofs_ok=%s corr_ok=%s cases=%d nontrivial=%d violations=%d known=%d wall=%.1fs' % (
         'PASS' if exit_code == 0 else 'FAIL', prop.id, tier, seed, proofs_ok, corr_ok, out.evals, len(out.nontrivial),
         len(out.violations), len(out.known), wall))
